@@ -132,8 +132,18 @@ fn spaces_from_bdl(bdl: &Data, id_maps: &IdMaps) -> Result<Vec<Space>, Error> {
     bdl.spaces
         .iter()
         .map(|s| {
-            let space_conds = id_maps.loads_id(&s.spaceconds).ok();
-            let system_conds = id_maps.thermostat_id(&s.systemconds).ok();
+            // Los archivos antiguos de LIDER no definen condiciones de uso ni consignas y sus espacios
+            // quedan sin ellas. Cuando el archivo sí las define, un nombre que no se resuelve es un error
+            let space_conds = match id_maps.loads_id(&s.spaceconds) {
+                Ok(id) => Some(id),
+                Err(e) if !bdl.space_conditions.is_empty() => return Err(e),
+                Err(_) => None,
+            };
+            let system_conds = match id_maps.thermostat_id(&s.systemconds) {
+                Ok(id) => Some(id),
+                Err(e) if !bdl.system_conditions.is_empty() => return Err(e),
+                Err(_) => None,
+            };
             let illuminance = if s.veei_obj > f32::EPSILON {
                 fround2(100.0 * s.power / s.veei_obj)
             } else {
